@@ -982,6 +982,25 @@ pub fn c04_chain() {
     let calls = log.lock().unwrap().clone();
     check!(calls == (0..n as i64).collect::<Vec<_>>(), "the operands are evaluated once each in source order");
 }
+/// C13 string() half: string(x) followed by the inverse conversion returns the original int, uint or double.
+pub fn c13_string_roundtrip() {
+    let kind: u8 = any();
+    let bits: u64 = any();
+    crate::sym::assume(kind <= 2);
+    let mut ctx = Context::default();
+    let (src, original) = match kind {
+        0 => ("int(string(x))", Value::Int(bits as i64)),
+        1 => ("uint(string(x))", Value::UInt(bits)),
+        _ => ("double(string(x))", Value::Float(f64::from_bits(bits))),
+    };
+    ctx.add_variable_from_value("x", original.clone());
+    let got = Program::compile(src).expect("compiles").execute(&ctx);
+    match (&original, &got) {
+        (Value::Float(f), Ok(Value::Float(g))) => check!(f.to_bits() == g.to_bits() || (f.is_nan() && g.is_nan()), "string(double) reads back to the same double"),
+        (o, Ok(g)) => check!(o == g, "string(int | uint) reads back to the same number"),
+        _ => check!(false, "string() followed by the inverse conversion succeeds"),
+    }
+}
 /// C13 literal half: an int / uint literal in either radix with an optional sign evaluates to the number
 /// it denotes, or is a compile error when that number does not fit.
 pub fn c13_literal() {
@@ -1429,6 +1448,7 @@ crate::replay_only! {
     #[kani::unwind(2)] c10_error_element: "off", "the five macros over 1-4 elements with a predicate that fails on one chosen element", "5 macros x lists of 1-4 x failing position x predicate bits";
     #[kani::unwind(2)] c10_literal_predicate: "off", "the five macros with a literal predicate over lists, a map and a non-collection", "5 macros x 2 literals x 5 receivers";
     #[kani::unwind(2)] c12_literal: "off", "a string / bytes literal token through Program::compile + execute against an independent decoder of the CEL literal syntax", "token text of up to 24 characters taken from the vector";
+    #[kani::unwind(2)] c13_string_roundtrip: "off", "int(string(x)) / uint(string(x)) / double(string(x)) through Program::compile + execute", "payload bits from the vector";
     #[kani::unwind(2)] c13_literal: "off", "int / uint literals of every sign, radix and magnitude through Program::compile + execute", "text built from the vector";
     #[kani::unwind(2)] c13_double_literal: "off", "eight double literal texts", "fixed list";
     #[kani::unwind(2)] c14_concat: "off", "Value + Value on lists / strings with controlled Arc sharing", "lengths 0-3, reference counts 1-4, x + x";
